@@ -171,7 +171,7 @@ func (w *c19Worker) apply(src, path string, e c19Edit) c19ApplyResp {
 	var resp c19ApplyResp
 	if err != nil || json.Unmarshal(line, &resp) != nil {
 		w.cmd.Wait()
-		msg := firstLine(strings.TrimSpace(w.stderr.String()))
+		msg := c19FirstLine(strings.TrimSpace(w.stderr.String()))
 		if msg == "" {
 			msg = "child process died"
 		}
@@ -782,7 +782,7 @@ func c19CheckProp(cs *c19Case, base *c19Compiled, baseGraph *c19Node, pl c19Plan
 	}
 	after, err := c19Compile(newSrc, cs.Path)
 	if err != nil {
-		return fail("property", "compile-"+c19ErrKind(err), "edited program no longer compiles: "+firstLine(err.Error())+"\n--- edited ---\n"+newSrc), editedEnc
+		return fail("property", "compile-"+c19ErrKind(err), "edited program no longer compiles: "+c19FirstLine(err.Error())+"\n--- edited ---\n"+newSrc), editedEnc
 	}
 	if baseGraph != nil {
 		if after.Graph == nil {
@@ -824,7 +824,7 @@ func c19CheckProp(cs *c19Case, base *c19Compiled, baseGraph *c19Node, pl c19Plan
 		backSrc := bresp.Out
 		again, err := c19Compile(backSrc, cs.Path)
 		if err != nil {
-			return fail("property", "roundtrip-compile-"+c19ErrKind(err), "X->Y->X no longer compiles: "+firstLine(err.Error())), editedEnc
+			return fail("property", "roundtrip-compile-"+c19ErrKind(err), "X->Y->X no longer compiles: "+c19FirstLine(err.Error())), editedEnc
 		}
 		if base.Ast.Call != nil && !base.Ast.EquivalentCall(again.Ast) {
 			return fail("property", "roundtrip-not-equivalent", "X->Y->X is not EquivalentCall to the original\n--- result ---\n"+backSrc), editedEnc
@@ -836,7 +836,7 @@ func c19CheckProp(cs *c19Case, base *c19Compiled, baseGraph *c19Node, pl c19Plan
 	return c19Outcome{}, editedEnc
 }
 
-func firstLine(s string) string {
+func c19FirstLine(s string) string {
 	if i := strings.IndexByte(s, '\n'); i >= 0 {
 		return s[:i]
 	}
@@ -1075,7 +1075,7 @@ func runC19(c *Ctx) {
 			rejected++
 			r.hist("generator:rejected-by-compiler")
 			if os.Getenv("C19_DEBUG") != "" {
-				r.hist("reject:" + firstLine(err.Error()))
+				r.hist("reject:" + c19FirstLine(err.Error()))
 			}
 			continue
 		}
